@@ -182,6 +182,11 @@ _Bool vf_ulock_try_lock(struct vf_lock *l)
   __CPROVER_assert(l->m != 0 && !l->owns, "[L2] unique_lock::try_lock() without mutex or when already owning (std::system_error)");
   l->owns = vf_mutex_try_lock(l->m); return l->owns;
 }
+_Bool vf_ulock_try_lock_timed(struct vf_lock *l)
+{
+  __CPROVER_assert(l->m != 0 && !l->owns, "[L2] unique_lock::try_lock_for/until() without mutex or when already owning (std::system_error)");
+  l->owns = vf_mutex_try_lock_timed(l->m); return l->owns;
+}
 void vf_ulock_unlock(struct vf_lock *l)
 {
   __CPROVER_assert(l->owns, "[L2] unique_lock::unlock() when not owning (std::system_error)");
@@ -209,6 +214,16 @@ void vf_slock_lock(struct vf_lock *l)
 {
   __CPROVER_assert(l->m != 0 && !l->owns, "[L2] shared_lock::lock() without mutex or when already owning (std::system_error)");
   vf_mutex_lock_shared(l->m); l->owns = 1;
+}
+_Bool vf_slock_try_lock(struct vf_lock *l)
+{
+  __CPROVER_assert(l->m != 0 && !l->owns, "[L2] shared_lock::try_lock() without mutex or when already owning (std::system_error)");
+  l->owns = vf_mutex_try_lock_shared(l->m); return l->owns;
+}
+_Bool vf_slock_try_lock_timed(struct vf_lock *l)
+{
+  __CPROVER_assert(l->m != 0 && !l->owns, "[L2] shared_lock::try_lock_for/until() without mutex or when already owning (std::system_error)");
+  l->owns = vf_mutex_try_lock_shared_timed(l->m); return l->owns;
 }
 void vf_slock_unlock(struct vf_lock *l)
 {
